@@ -510,6 +510,9 @@ def check_tree(e, g: Gen, rec, label, origin=None):
             rec.inconc("nan on one side only")
         return
     if mpmath.isinf(v) or mpmath.isinf(lv_m):
+        if isinstance(v, mpmath.mpc) or isinstance(lv_m, mpmath.mpc):
+            rec.inconc("complex infinity")
+            return
         if not (mpmath.isinf(v) and mpmath.isinf(lv_m)):
             rec.violation("value:inf", f"Quantity({str(e)[:200]}): value {lv_m} vs reference {v}", case)
         return
